@@ -173,6 +173,30 @@ def run(F, R, ctx):
                bool(fn.call_blocks(r"\{impl ThreadId\}::current_thread$", wrappers=True)),
                "QueueHandle::%s no longer derives the queue key from ThreadId::current_thread(): it would merge another "
                "thread's objects and touch their owner-only counters" % nm, fn.loc(), sample=True)
+    # who may run the merge routines (they read the owner-only counter without an owner test, "from the owner's queue"):
+    # only the drains of the CURRENT thread's queue, each other, or code dominated by the owner test
+    _, callers_ = F.graph()
+    merge_rx = re.compile(r"^steel_rc::(\{impl BiasedMerge for BiasedRc<T>\}::merge|\{impl QueueHandle\}::explicit_merge)$")
+    drains = re.compile(r"^steel_rc::\{impl QueueHandle\}::(run_explicit_merge|finish_thread_merge)(::\{closure#\d+\})*$")
+    nm_ = 0
+    for mname in [x for x in F.fns if merge_rx.search(x)]:
+        for c in sorted(callers_.get(mname, ())):
+            if c not in F.fns or not c.startswith("steel_rc::"):
+                continue
+            nm_ += 1
+            cf = F.fns[c]
+            ok = bool(drains.search(c)) or bool(merge_rx.search(re.sub(r"(::\{closure#\d+\})+$", "", c)))
+            if not ok:
+                eqs = cf.call_blocks(r"\{impl PartialEq(<ThreadId>)? for ThreadId\}::eq$")
+                trues = [lib.bool_branch(cf, b_)[0] for b_ in eqs]
+                sites = [i_ for i_, b_ in cf.calls() if b_["callee"] == mname]
+                ok = bool(eqs) and all(dominated_by_any(cf, i_, trues) for i_ in sites)
+            R.inst("C05.a", "%s runs %s only for the current thread's objects" % (cf.short(), lib.short_name(mname)), ok,
+                   "%s calls %s — which reads and folds the owner-only counter RcWord.biased_counter without an owner test — "
+                   "outside the drains of the current thread's own queue and not under `owner == current_thread()`: a "
+                   "non-owner thread merges while the owner may still be on its fast path, increments made in that window are "
+                   "lost and the value is freed while the owner holds references" % (cf.short(), lib.short_name(mname)),
+                   cf.loc(), sample=True)
     # thread_id writes
     for n, fn in rcfns.items():
         for i, j, e in fn.events("fld"):
